@@ -54,6 +54,11 @@ def crowding(args):
     def body(ctx):
         inds = _mk_front(ctx, n, m, Individual)
         C = [[ind.costs_signed[d] for d in range(m)] for ind in inds]
+        if args.get('container') == 'ndarray':
+            # signed costs stored as numpy arrays (slices are views): the crowding pass must not write into them
+            import numpy as np
+            for ind in inds:
+                ind.costs_signed = np.array(list(ind.costs_signed), dtype=object if ctx.symbolic else float)
         if not ties:
             for d in range(m):
                 for i in range(n):
@@ -64,6 +69,8 @@ def crowding(args):
         cd = [ind.features.get('crowding_distance') for ind in inds]
         ctx.output('crowding', cd)
         ctx.check('same-members', sorted(x.id for x in front) != list(range(n)))
+        ctx.check('stored-costs-not-modified',
+                  Or(*[ops.differs(ind.costs_signed[d], C[i][d], 0.0) for i, ind in enumerate(inds) for d in range(m)]) if n else False)
         ctx.check('assigned', any(v is None for v in cd))
         if n == 0:
             return
@@ -194,9 +201,9 @@ def tournament(args):
 def configs(tier):
     out = []
 
-    def crowd(n, m, ties, split=None, **eng):
-        out.append({'name': 'crowd-n%d-m%d-%s' % (n, m, 'ties' if ties else 'noties'), 'task': 'crowding',
-                    'args': {'n': n, 'm': m, 'ties': ties}, 'weight': math.factorial(n) ** m * (3 if not ties else 1),
+    def crowd(n, m, ties, split=None, container=None, **eng):
+        out.append({'name': 'crowd-n%d-m%d-%s%s' % (n, m, 'ties' if ties else 'noties', '-' + container if container else ''), 'task': 'crowding',
+                    'args': {'n': n, 'm': m, 'ties': ties, 'container': container}, 'weight': math.factorial(n) ** m * (3 if not ties else 1),
                     'split': split, 'engine': dict({'validate': 40}, **eng)})
 
     def trunc(designs, split=None):
@@ -214,6 +221,8 @@ def configs(tier):
     crowd(4, 1, False)
     crowd(3, 1, True)
     crowd(3, 2, True, split=32)
+    crowd(3, 2, False, container='ndarray')
+    crowd(3, 1, True, container='ndarray')
     trunc([0])
     trunc([0, 1])
     trunc([0, 0])
